@@ -300,7 +300,8 @@ func instrumentPkg(fset *token.FileSet, imp types.Importer, p listPkg, rel strin
 		if doYield && !isPB {
 			addYields := func(list []ast.Stmt) {
 				for _, st := range list {
-					if _, isDecl := st.(*ast.DeclStmt); isDecl {
+					switch st.(type) {
+					case *ast.DeclStmt, *ast.CaseClause, *ast.CommClause:
 						continue
 					}
 					site := len(rep.Sites)
